@@ -100,7 +100,10 @@ let rec count_fragments (v : value) : int =
 let c05 toks =
   let (o, i) = parse_case toks in
   let show = function
-    | Ok (v, cm) -> Printf.sprintf "OK %s T%d" (codemap_str cm) (int_of_nat (length (traverse v)))
+    | Ok (v, cm) ->
+      let tr = traverse v in
+      let kinds = Stdlib.String.concat "" (List.map (function FValue _ -> "v" | FEntry _ -> "e" | FKey _ -> "k") tr) in
+      Printf.sprintf "OK %s T%d K%s" (codemap_str cm) (List.length tr) kinds
     | Err _ -> "ERR"
     | x -> bad x in
   match i with
